@@ -1,2 +1,89 @@
-(* Props/C07.v — the RESP parser is total and reads numbers exactly. *)
-From BC Require Import Resp.Frame.
+(* Props/C07.v — C07: the RESP parser is total and reads numbers exactly.
+   Statements only; every proof is [exact <lemma>] into Resp/IntProofs.v and Resp/FrameProofs.v.
+   Model: Resp/Frame.v, [fixed b] = src/net/frame.rs after the D4-D7 repairs, [pinned b s] = before. *)
+From BC Require Import Resp.Frame Resp.IntProofs Resp.FrameProofs.
+Open Scope Z_scope.
+
+(* 1. Totality: for every byte string, in debug and release builds, checking and parsing end in a
+      frame/length, `Incomplete`, or an error — never a panic, an abort, or an exhausted model fuel. *)
+Theorem C07_total : forall (b : build) (l : bytes),
+  good (check (fixed b) l) /\ good (parse (fixed b) l).
+Proof. intros b l. split; [exact (check_total b l)|exact (parse_total b l)]. Qed.
+Print Assumptions C07_total.
+
+(* 2. The integer reader itself is total at any cursor position of any buffer. *)
+Theorem C07_integer_reader_total : forall b tot l,
+  get_integer (fixed b) tot l <> Panic /\ get_integer (fixed b) tot l <> Abort /\
+  get_integer (fixed b) tot l <> OutOfFuel.
+Proof. exact get_integer_total. Qed.
+Print Assumptions C07_integer_reader_total.
+
+(* 3. Exactness: an accepted number (or length) is an optional sign, a non-empty run of ASCII digits
+      whose signed decimal value is exactly the result, inside i64, then CR and one more byte;
+      this holds wherever in the buffer the number sits ([tot], [l] arbitrary). *)
+Theorem C07_integer_exact : forall b tot l z r,
+  get_integer (fixed b) tot l = Ok (z, r) ->
+  exists pos bs x, sign_of l = (pos, bs ++ 13%N :: x :: r) /\ bs <> [] /\ forallb is_digit bs = true /\
+                   z = value pos bs 0 /\ in_i64 z = true.
+Proof. exact get_integer_exact. Qed.
+Print Assumptions C07_integer_exact.
+
+(* 4. ... and conversely a well-formed decimal is accepted exactly when it fits in i64:
+      out-of-range numbers are rejected, in-range ones are never rejected. *)
+Theorem C07_integer_accepted_iff_in_range : forall b tot l pos bs x r,
+  sign_of l = (pos, bs ++ 13%N :: x :: r) -> bs <> [] -> forallb is_digit bs = true ->
+  get_integer (fixed b) tot l =
+    if in_i64 (value pos bs 0) then Ok (value pos bs 0, r) else Err NotInteger.
+Proof. exact get_integer_accepts. Qed.
+Print Assumptions C07_integer_accepted_iff_in_range.
+
+(* 5. Nesting: recursion is structural on a budget of [max_depth] = 32 levels; one level more is an
+      error for every content and every continuation of the buffer (no stack growth beyond 33 calls). *)
+Theorem C07_nesting_bounded : forall b inner rest,
+  check (fixed b) (nested (S max_depth) inner ++ rest) = Err BadEncoding /\
+  parse (fixed b) (nested (S max_depth) inner ++ rest) = Err BadEncoding.
+Proof. intros b inner rest. unfold check, parse. exact (nested_rejected_at_budget b _ max_depth inner rest). Qed.
+Print Assumptions C07_nesting_bounded.
+
+(* 6. When the completeness check and the parser both succeed on a buffer they stop at the same byte. *)
+Theorem C07_check_parse_agree : forall b l u r1 f r2,
+  check (fixed b) l = Ok (u, r1) -> parse (fixed b) l = Ok (f, r2) -> r1 = r2.
+Proof. intros b l. unfold check, parse. exact (check_parse_agree b (blen l) (v_depth (fixed b)) l). Qed.
+Print Assumptions C07_check_parse_agree.
+
+(* 7. Debug and release builds behave identically (no arithmetic can overflow). *)
+Theorem C07_build_irrelevant : forall l,
+  check (fixed Debug) l = check (fixed Release) l /\ parse (fixed Debug) l = parse (fixed Release) l.
+Proof.
+  intros l. unfold check, parse. split;
+    [exact (check_build_irrelevant (blen l) _ l)|exact (parse_build_irrelevant (blen l) _ l)].
+Qed.
+Print Assumptions C07_build_irrelevant.
+
+(* Non-vacuity: the deepest accepted nesting, numbers at the i64 limits, at offset 53. *)
+Example C07_depth_32_accepted :
+  exists f, parse (fixed Debug) (nested 32 [58; 49; 13; 10]%N) = Ok (f, []).
+Proof. eexists. vm_compute. reflexivity. Qed.
+Example C07_min_at_offset :
+  get_integer (fixed Debug) 75 ([45; 57; 50; 50; 51; 51; 55; 50; 48; 51; 54; 56; 53; 52; 55; 55; 53; 56; 48; 56; 13; 10]%N)
+  = Ok (- 9223372036854775808, []).
+Proof. vm_compute. reflexivity. Qed.
+Example C07_below_min_rejected :
+  get_integer (fixed Debug) 75 ([45; 57; 50; 50; 51; 51; 55; 50; 48; 51; 54; 56; 53; 52; 55; 55; 53; 56; 48; 57; 13; 10]%N)
+  = Err NotInteger.
+Proof. vm_compute. reflexivity. Qed.
+
+(* The pinned (pre-repair) code violated the property: kept as refutations of the old definitions. *)
+Theorem C07_pinned_refuted_sign : forall b s, check (pinned b s) [58; 45]%N = Panic.
+Proof. intros b s. destruct b, s; reflexivity. Qed.
+Print Assumptions C07_pinned_refuted_sign.
+
+Theorem C07_pinned_refuted_offset :
+  get_integer (pinned Release 0) 53 (rep 20 57 ++ [13; 10]%N) = Ok (7766279631452241919, []) /\
+  get_integer (pinned Debug 0) 53 (rep 20 57 ++ [13; 10]%N) = Panic.
+Proof. split; vm_compute; reflexivity. Qed.
+Print Assumptions C07_pinned_refuted_offset.
+
+Theorem C07_pinned_refuted_depth : check (pinned Release 100) (nested 101 [58; 49; 13; 10]%N) = Abort.
+Proof. vm_compute. reflexivity. Qed.
+Print Assumptions C07_pinned_refuted_depth.
